@@ -197,9 +197,42 @@ def rejected_calls(res, rng):
                     break
 
 
+def dense_ctor_cases(res, rng):
+    """objects built from DENSE data (torch / numpy source, tensor and operator shapes, eps and rmax forms) with size-1 modes in every position,
+    on bonds of rank > 1: reported metadata must describe the cores, and objects derived from them must be buildable"""
+    shapes = [[3, 1, 4], [2, 1, 1, 3], [1, 3, 1, 2], [3, 4, 1], [2, 3, 1, 2, 2]]
+    opshapes = [[(2, 2), (1, 1), (3, 3)], [(2, 3), (1, 1), (1, 1), (2, 2)], [(1, 1), (2, 2), (3, 2)]]
+    for si, sh in enumerate(shapes + opshapes):
+        is_op = isinstance(sh[0], tuple)
+        full_shape = [m for m, _ in sh] + [n for _, n in sh] if is_op else list(sh)
+        g = tn.Generator().manual_seed(rng.randrange(1 << 30))
+        dense = tn.randn(full_shape, generator=g, dtype=tn.float64)
+        for src in ("torch", "numpy"):
+            for kw in ({}, {"eps": 1e-6}, {"rmax": 3}, {"rmax": [1] + [3] * (len(sh) - 1) + [1]}):
+                data = dense if src == "torch" else dense.numpy()
+                try:
+                    x = torchtt.TT(data, [tuple(p_) for p_ in sh], **kw) if is_op else (torchtt.TT(data, **kw) if si % 2 == 0 else torchtt.TT(data, list(sh), **kw))
+                    msg = wf_violation(x)
+                    if msg is None:
+                        y = x - 0.5 * x            # operations that trust the reported ranks
+                        z = x * x
+                        msg = wf_violation(y) or wf_violation(z)
+                except Exception as e:
+                    msg = "construction / derived operation raised %s: %s" % (type(e).__name__, str(e)[:80])
+                res.evaluations += 1
+                res.oracle_checked += 1
+                cls = "dense-ctor/%s/%s" % ("ttm" if is_op else "tt", src)
+                res.classes[cls] = res.classes.get(cls, 0) + 1
+                res.nontrivial.add(hash((cls, si, str(kw))))
+                if msg:
+                    res.violation({"property": "C05", "kind": "oracle-failure", "class": cls, "case": "TT(%s dense, shape=%s, %s)" % (src, sh, kw), "oracle": msg, "seed": res.seed})
+                    return
+
+
 def run(res, rng, tier, known):
     directed_histories(res, rng)
     rejected_calls(res, rng)
+    dense_ctor_cases(res, rng)
     nwalks, nsteps = (6, 60) if tier == "quick" else (40, 250)
     model_lines, impl_outs = [], []
     orig_init = B.TT.__init__
